@@ -395,6 +395,76 @@ def F23():
         return "get_multiplicity(('time','samples')) on a 3-D extension raises TypeError instead of ValueError"
 
 
+def F24():
+    import tempfile, shutil, subprocess, textwrap
+    d = tempfile.mkdtemp(prefix='f24_')
+    try:
+        p = os.path.join(d, 'a.nii')
+        data = (np.arange(192 * 192 * 6, dtype=np.int16) * 7 % 1000).reshape(192, 192, 6)
+        img = nb.Nifti1Image(data, np.eye(4)); img.header.set_dim_info(None, None, 2)
+        NiftiWrapper(img, make_empty=True).to_filename(p)
+        code = textwrap.dedent("""
+            import sys, warnings; warnings.simplefilter('ignore')
+            sys.path.insert(0, %r)
+            from dcmstack import nitool_cli
+            sys.exit(nitool_cli.main(['nitool', 'dump', '-r', %r, %r]) or 0)""" % (os.path.join(REPO, 'src'), p, os.path.join(d, 'm.json')))
+        r = subprocess.run([sys.executable, '-c', code], capture_output=True)
+        if r.returncode != 0:
+            return 'nitool dump -r on an uncompressed .nii: process exit status %d (SIGBUS = -7 / 135), file size now %d' % (r.returncode, os.path.getsize(p))
+        back = np.asanyarray(nb.load(p).dataobj)
+        if not np.array_equal(back, data):
+            return 'nitool dump -r on an uncompressed .nii corrupted the voxel data'
+    finally:
+        shutil.rmtree(d)
+
+
+def F25():
+    st = dcmstack.DicomStack()
+    dss = [_mk_ds(ipp=(0., 0., float(z)), inst=z + 1) for z in range(4)]
+    st.add_dcm(dss[0]); st.add_dcm(dss[2])
+    a1 = st.get_affine(); snap = a1.copy()
+    st.add_dcm(dss[1]); st.add_dcm(dss[3])
+    a2 = st.get_affine()
+    if not np.array_equal(a1, snap):
+        return 'an affine returned earlier by get_affine changed after add_dcm + a new get_affine (same array object: %s)' % (a1 is a2)
+    a2[0, 0] = 99.0
+    if st.get_affine()[0, 0] == 99.0:
+        return 'editing the array returned by get_affine changes every later get_affine / to_nifti of the stack'
+
+
+def F26():
+    import pydicom, json
+    from dcmstack import extract
+    ds = pydicom.dataset.Dataset()
+    ds.add_new((0x0066, 0x0016), 'OF', b'\x00\x00\x80\x3f')
+    ds.add_new((0x0066, 0x0040), 'OL', b'\x01\x00\x00\x00')
+    ds.add_new((0x0070, 0x150d), 'OD', b'\x00' * 8)
+    r = extract.MetaExtractor()(ds)
+    try:
+        json.dumps(r)
+    except TypeError as e:
+        return 'the default extractor returns raw bytes for OF/OL/OD elements: %s (%s)' % (sorted(k for k, v in r.items() if isinstance(v, bytes)), e)
+
+
+def F27():
+    import tempfile, shutil
+    d = tempfile.mkdtemp(prefix='f27_')
+    try:
+        ds = _mk_ds(ipp=(0., 0., 0.), inst=1, extra={'AcquisitionNumber': 7})
+        p = os.path.join(d, 'a.dcm')
+        import pydicom
+        pydicom.dcmwrite(p, ds, enforce_file_format=True)
+        with warnings.catch_warnings():
+            warnings.simplefilter('ignore')
+            r = dcmstack.parse_and_stack([p], warn_on_except=True,
+                                         time_order=dcmstack.DicomOrdering('AcquisitionNumber', abs_ordering=[1, 2, 3]))
+        empty = [k for k, st in r.items() if len(st._files_info) == 0]
+        if empty:
+            return 'parse_and_stack returns %d group(s) holding an empty DicomStack (every file of the group was refused); without the file the result is {}' % len(empty)
+    finally:
+        shutil.rmtree(d)
+
+
 # ---- open findings (recorded in known-findings.txt, not repaired): these report PRESENT on the current tree
 def N1():
     e = DcmMetaExtension.make_empty((2, 2, 2, 1), np.eye(4), None, 2)
@@ -519,7 +589,7 @@ def deepcopy_ext(e):
 
 
 OPEN = ['N1', 'N2', 'N3', 'N4', 'N6', 'N8', 'N9', 'N11', 'N13', 'N14']
-ALL = ['F23', 'F22', 'F21', 'F20', 'F19', 'F18', 'F17', 'F16', 'F15', 'F1', 'F2', 'F3', 'F4', 'F5', 'F6', 'F7', 'F8', 'F9', 'F10', 'F11', 'F12', 'F13', 'F14']
+ALL = ['F27', 'F26', 'F25', 'F24', 'F23', 'F22', 'F21', 'F20', 'F19', 'F18', 'F17', 'F16', 'F15', 'F1', 'F2', 'F3', 'F4', 'F5', 'F6', 'F7', 'F8', 'F9', 'F10', 'F11', 'F12', 'F13', 'F14']
 
 if __name__ == '__main__':
     which = sys.argv[1:] or ALL
